@@ -138,24 +138,34 @@ func TestVerifNative(t *testing.T) {
 // runCases compiles the harness files natively against the real code (go test
 // -overlay; nothing is written into the repository) and runs the given cases.
 func (n *native) runCases(cases []replayCase) ([]nativeOut, error) {
+	outs, _, err := n.runCasesFull(cases, false)
+	return outs, err
+}
+
+func (n *native) runCasesOpt(cases []replayCase, race bool) (string, error) {
+	_, txt, err := n.runCasesFull(cases, race)
+	return txt, err
+}
+
+func (n *native) runCasesFull(cases []replayCase, race bool) ([]nativeOut, string, error) {
 	c := n.c
 	work, err := os.MkdirTemp(filepath.Join(c.verif, ".work"), "native-")
 	if err != nil {
 		os.MkdirAll(filepath.Join(c.verif, ".work"), 0o755)
 		work, err = os.MkdirTemp(filepath.Join(c.verif, ".work"), "native-")
 		if err != nil {
-			return nil, err
+			return nil, "", err
 		}
 	}
 	defer os.RemoveAll(work)
 	files, err := c.harnessFiles()
 	if err != nil {
-		return nil, err
+		return nil, "", err
 	}
 	// harness table
 	names, err := harnessNames(files)
 	if err != nil {
-		return nil, err
+		return nil, "", err
 	}
 	var tab strings.Builder
 	for _, nm := range names {
@@ -163,7 +173,7 @@ func (n *native) runCases(cases []replayCase) ([]nativeOut, error) {
 	}
 	testFile := filepath.Join(work, "zz_verif_native_test.go")
 	if err := os.WriteFile(testFile, []byte(fmt.Sprintf(nativeTestTmpl, tab.String())), 0o644); err != nil {
-		return nil, err
+		return nil, "", err
 	}
 	replace := map[string]string{filepath.Join(c.repo, "zz_verif_native_test.go"): testFile}
 	for _, f := range files {
@@ -188,10 +198,19 @@ func (n *native) runCases(cases []replayCase) ([]nativeOut, error) {
 	outFile := filepath.Join(work, "out.json")
 	os.WriteFile(casesFile, cb, 0o644)
 	timeout := 120 + len(cases)/2
-	cmd := exec.Command("go", "test", "-vet=off", "-count=1", "-run", "^TestVerifNative$", "-overlay", ovFile,
-		"-timeout", fmt.Sprintf("%ds", timeout), ".")
+	args := []string{"test", "-vet=off", "-count=1", "-run", "^TestVerifNative$", "-overlay", ovFile,
+		"-timeout", fmt.Sprintf("%ds", timeout)}
+	if race {
+		args = append(args, "-race")
+	}
+	args = append(args, ".")
+	cmd := exec.Command("go", args...)
 	cmd.Dir = c.repo
-	cmd.Env = append(os.Environ(), "GOFLAGS=-mod=mod", "GOPROXY=off", "GOSUMDB=off", "GOTOOLCHAIN=local",
+	cgo := "CGO_ENABLED=0"
+	if race {
+		cgo = "CGO_ENABLED=1"
+	}
+	cmd.Env = append(os.Environ(), "GOFLAGS=-mod=mod", "GOPROXY=off", "GOSUMDB=off", "GOTOOLCHAIN=local", cgo,
 		"VERIF_CASES="+casesFile, "VERIF_OUT="+outFile)
 	var buf bytes.Buffer
 	cmd.Stdout, cmd.Stderr = &buf, &buf
@@ -204,16 +223,16 @@ func (n *native) runCases(cases []replayCase) ([]nativeOut, error) {
 		if len(tail) > 3000 {
 			tail = tail[len(tail)-3000:]
 		}
-		return nil, fmt.Errorf("native run produced no output (%v): %s", runErr, tail)
+		return nil, buf.String(), fmt.Errorf("native run produced no output (%v): %s", runErr, tail)
 	}
 	var outs []nativeOut
 	if err := json.Unmarshal(ob, &outs); err != nil {
-		return nil, err
+		return nil, "", err
 	}
 	if len(outs) != len(cases) {
-		return nil, fmt.Errorf("native run returned %d results for %d cases", len(outs), len(cases))
+		return nil, buf.String(), fmt.Errorf("native run returned %d results for %d cases", len(outs), len(cases))
 	}
-	return outs, nil
+	return outs, buf.String(), nil
 }
 
 func harnessNames(files []string) ([]string, error) {
@@ -233,4 +252,78 @@ func harnessNames(files []string) ([]string, error) {
 		}
 	}
 	return names, nil
+}
+
+// runRace compiles the harness files natively with the Go race detector and
+// runs the given harness n times; returns the set of racing access pairs the
+// detector reported, normalised like the engine's happens-before reports
+// ("read@(*Conn).handleBdat vs write@(*Conn).Close").
+func (n *native) runRace(harness string, runs int, tier int) (map[string]bool, error) {
+	var cases []replayCase
+	for i := 0; i < runs; i++ {
+		cases = append(cases, replayCase{Harness: harness, Random: true, Seed: int64(i + 1), Tier: tier})
+	}
+	out, err := n.runCasesOpt(cases, true)
+	if err != nil && out == "" {
+		return nil, err
+	}
+	return parseRaces(out), nil
+}
+
+func parseRaces(out string) map[string]bool {
+	res := map[string]bool{}
+	blocks := strings.Split(out, "WARNING: DATA RACE")
+	for _, b := range blocks[1:] {
+		if i := strings.Index(b, "=================="); i >= 0 {
+			b = b[:i]
+		}
+		lines := strings.Split(b, "\n")
+		var accs []string
+		for i := 0; i < len(lines); i++ {
+			l := strings.TrimSpace(lines[i])
+			kind := ""
+			switch {
+			case strings.HasPrefix(l, "Write at"), strings.HasPrefix(l, "Previous write at"):
+				kind = "write"
+			case strings.HasPrefix(l, "Read at"), strings.HasPrefix(l, "Previous read at"):
+				kind = "read"
+			}
+			if kind == "" {
+				continue
+			}
+			// first frame of the package under test outside harness files
+			fn := ""
+			for j := i + 1; j+1 < len(lines); j += 2 {
+				f := strings.TrimSpace(lines[j])
+				file := strings.TrimSpace(lines[j+1])
+				if f == "" {
+					break
+				}
+				if strings.HasPrefix(f, "github.com/emersion/go-smtp.") && !strings.Contains(file, "zz_verif") {
+					fn = strings.TrimPrefix(f, "github.com/emersion/go-smtp.")
+					if k := strings.Index(fn, "()"); k >= 0 {
+						fn = fn[:k]
+					}
+					if k := strings.Index(fn, ".func"); k >= 0 {
+						fn = fn[:k] + "$goroutine"
+					}
+					if k := strings.Index(fn, ".gowrap"); k >= 0 {
+						fn = fn[:k] + "$goroutine"
+					}
+					break
+				}
+			}
+			if fn != "" {
+				accs = append(accs, kind+"@"+fn)
+			}
+		}
+		if len(accs) >= 2 {
+			x, y := accs[0], accs[1]
+			if x > y {
+				x, y = y, x
+			}
+			res[x+" vs "+y] = true
+		}
+	}
+	return res
 }
